@@ -18,18 +18,20 @@ import (
 )
 
 // place: where the call under test is made to wait
-//   queued   - pipelined Do whose reply the server withholds
-//   sync     - the only caller, synchronous read, reply withheld
-//   multi    - pipelined DoMulti, reply withheld
-//   pool     - blocking command while the 1-connection blocking pool is held by another blocking call
-//   cachewait- DoCache waiting on another caller's flight whose reply is withheld
-//   cacheown - DoCache owner whose reply is withheld
-//   retry    - read-only command after a transport error with RetryDelay = 10s
-//   done     - context already done before the call
+//
+//	queued   - pipelined Do whose reply the server withholds
+//	sync     - the only caller, synchronous read, reply withheld
+//	multi    - pipelined DoMulti, reply withheld
+//	pool     - blocking command while the 1-connection blocking pool is held by another blocking call
+//	cachewait- DoCache waiting on another caller's flight whose reply is withheld
+//	cacheown - DoCache owner whose reply is withheld
+//	retry    - read-only command after a transport error with RetryDelay = 10s
+//	done     - context already done before the call
+//
 // how: deadline (1s) | cancel (a thread cancels at any point; only for pipelined places)
 type c05cfg struct {
 	name, place, how string
-	always          bool
+	always           bool
 }
 
 const c05T = time.Second
